@@ -94,6 +94,11 @@ def gen_session(ctx, template=None):
         return dict(kind=kind, base=b"", trace=st.trace, intended=pts, ps=ps, desc=dict(desc, chunks=sizes), final=st.getvalue())
     # append
     A = lasio.rand_points(rng, h, rng.choice([0, 1, 4]), "random")
+    if rng.random() < 0.2:
+        # a legal file laspy did not write: a WKT record padded with several NULs, which laspy re-serialises SHORTER (one NUL).
+        # The in-place header rewrite of the append then cannot keep its size: whatever the appender does, the points must stay readable
+        h.vlrs.append(laspy.VLR("LASF_Projection", 2112, "", b'GEOGCS["WGS 84"]' + bytes(rng.choice([2, 4, 7]))))
+        desc["padded_wkt_vlr"] = True
     raw0 = lasio.write_las(h, A, evl)
     if evl and rng.random() < 0.5:
         gp = rng.choice([1, ps, 2 * ps + 3])
@@ -109,7 +114,10 @@ def gen_session(ctx, template=None):
         ap.append_points(c)
         pts += lasio.rec_bytes(c)
         sizes.append(len(c))
-    ap.close()
+    try:
+        ap.close()
+    except Exception as ex:
+        desc["close_raised"] = type(ex).__name__
     return dict(kind=kind, base=raw0, trace=st.trace, intended=pts, ps=ps, desc=dict(desc, orig=len(A), chunks=sizes), final=st.getvalue())
 
 
